@@ -383,12 +383,22 @@ class IrGenerator:
                 # an always-false while loop is replaced by `await true`, the statements
                 # that evaluated its (discarded) condition must not end the special case
                 # for awaits at the start of the process
-                start_await_true = ctx.at_start() and inp.result() is _boolean.true
+                # the special case only applies to code that continues the first state itself,
+                # not to detached blocks (bodies of a case-when statement that is built tentatively)
+                in_first_state = all(
+                    block is ctx.first_state().open_block() for block in open_blocks
+                )
+
+                start_await_true = (
+                    in_first_state
+                    and ctx.at_start()
+                    and inp.result() is _boolean.true
+                )
 
                 for expr_before in inp._expr_before:
                     open_blocks = self.apply(expr_before, open_blocks=open_blocks)
 
-                if ctx.at_start() or start_await_true:
+                if (in_first_state and ctx.at_start()) or start_await_true:
                     # special case for sequential instances with `await` as
                     # first statement. Empty first state is used to avoid
                     # delay of one tick at start of instance.
@@ -452,7 +462,9 @@ class IrGenerator:
 
             ctx = ir.StatemachineContext.get()
 
-            if ctx.at_start():
+            if ctx.at_start() and all(
+                block is ctx.first_state().open_block() for block in open_blocks
+            ):
                 # special case for sequential instances with `while` as
                 # first statement. Empty first state is used to avoid
                 # delay of one tick at start of instance.
